@@ -160,6 +160,8 @@ def transport_date(s, sels):
     async def rec(error_response):
         sent.append(error_response)
 
+    if not hasattr(c, "_send_error_response"):
+        raise HarnessError("seam missing: StdioClient._send_error_response")
     c._send_error_response = rec
     items = []
     exp_main = []
